@@ -78,18 +78,29 @@ def r15_1(ctx, g):
     for f, c in viol:
         ctx.violated("R15.1", f.where(c), f"`{norm(c)[:70]}` mutates a node's adjacency outside Node.add_from_*/remove_from_*: the other end of the link is not updated with it", key_of(f, f"raw-adjacency-write:{norm(c)[:80]}"))
     ctx.check(len(owners) == 4, "R15.1", "gaftools/gfa.py", "the adjacency sets are mutated only by the four Node.add_from_* / remove_from_* methods", f"gaftools.gfa::adjacency-owners:{sorted(owners)}", owners=sorted(owners), mutation_sites=n)
-    # callers of the four methods
+    # callers of the four methods: add_edge / remove_edge, or private helpers that only they call
+    allowed = {"GFA.add_edge", "GFA.remove_edge"}
+    changed = True
+    while changed:
+        changed = False
+        for cand in repo.module("gaftools.gfa").funcs.values():
+            if cand.cls != "GFA" or cand.qualname in allowed or not cand.name.startswith("_") or cand.name.startswith("__"):
+                continue
+            callers = repo.callers_of(cand)
+            if callers and all(cf.qualname in allowed for cf, _ in callers):
+                allowed.add(cand.qualname)
+                changed = True
     bad = []
     n_calls = 0
     for f in repo.all_funcs():
         for c in walk_own(f.node):
             if isinstance(c, ast.Call) and isinstance(c.func, ast.Attribute) and c.func.attr.startswith(("add_from_", "remove_from_")):
                 n_calls += 1
-                if f.qualname not in ("GFA.add_edge", "GFA.remove_edge"):
+                if f.qualname not in allowed:
                     bad.append((f, c))
     for f, c in bad:
         ctx.violated("R15.1", f.where(c), f"`{norm(c)[:60]}` is called outside GFA.add_edge/remove_edge: one end of a link changes without the other", key_of(f, f"one-sided-call:{norm(c)[:80]}"))
-    ctx.check(not bad and n_calls >= 8, "R15.1", "gaftools/gfa.py", "the one-sided methods are called only from GFA.add_edge and GFA.remove_edge", "gaftools.gfa::one-sided-callers", calls=n_calls)
+    ctx.check(not bad and n_calls >= 4, "R15.1", "gaftools/gfa.py", "the one-sided methods are called only from GFA.add_edge / GFA.remove_edge (or private helpers that only those two call)", "gaftools.gfa::one-sided-callers", calls=n_calls, allowed=sorted(allowed))
     # deletions from GFA.nodes
     dels = []
     for f in repo.all_funcs():
@@ -118,11 +129,11 @@ def r15_1(ctx, g):
 def r15_2(ctx, g):
     for f, kind in ((g.add_edge, "add"), (g.remove_edge, "remove")):
         res = gc.endpoint_mutations(ctx, f, kind)
-        # names: endpoints and sides as the function sees them at the mutation
         bad = None
         table = set()
         n = 0
-        for p, muts in res:
+        for p in res:
+            muts = p.muts
             if p.term in ("raise",):
                 continue
             n += 1
@@ -133,17 +144,17 @@ def r15_2(ctx, g):
             if not (m1.startswith(kind) and m2.startswith(kind)):
                 bad = (p, f"mixed mutation kinds {m1}/{m2}")
                 break
-            # receivers: self[n1] / self.nodes[n1]
+
             def node_of(r):
                 for pre in ("self[", "self.nodes["):
                     if r.startswith(pre) and r.endswith("]"):
                         return r[len(pre) : -1]
                 return r
+
             x1, x2 = node_of(r1), node_of(r2)
             if len(a1) != 3 or len(a2) != 3:
                 bad = (p, "mutation does not pass (neighbor, side, overlap)")
                 break
-            # side used for endpoint i: established by the tests `side == 0` on the path
             s_1 = side_of(p, m1, a2[1])
             s_2 = side_of(p, m2, a1[1])
             if a1[0] != x2 or a2[0] != x1:
@@ -152,13 +163,10 @@ def r15_2(ctx, g):
             if a1[2] != a2[2]:
                 bad = (p, "the two ends record different overlaps")
                 break
-            # a1[1] must be endpoint 2's side variable and the method at endpoint 2 must be chosen by that same variable
             if s_1 is None or s_2 is None:
                 bad = (p, "the side -> method choice is not decided by a test of the side variable recorded at the other end")
                 break
             table |= {s_1, s_2}
-            if s_1[0] != s_2[0] and False:
-                pass
         ok_table = table <= {("0", "start"), ("1", "end")} and len(table) == 2
         if bad is None and not ok_table:
             bad = (None, f"side -> method table is {sorted(table)}, expected 0 -> *_start, 1 -> *_end at both ends")
@@ -170,8 +178,7 @@ def r15_2(ctx, g):
 def side_of(p, method, side_var):
     """(side value, 'start'|'end') for a mutation through `method`, given the path's tests on `side_var`."""
     which = "start" if method.endswith("_start") else "end"
-    for t, pol in p.tests():
-        s, sp = canon_test(t, pol)
+    for s, sp in p.tests:
         if s == f"{side_var} == 0":
             return ("0" if sp else "1", which)
         if s == f"{side_var} == 1":
@@ -288,23 +295,46 @@ def r15_5(ctx, g):
     repo = ctx.repo
     f = repo.func("gaftools.gfa", "GFA.biccs", "R15.5")
     ctx.analysed_func(f)
-    # the edge stack: the list to which 2-tuples of (child, nn) are appended
+    everything = list(ast.walk(f.node))  # including nested helper functions: they operate on the same stack
+    nested = {n.name: n for n in everything if isinstance(n, ast.FunctionDef) and n is not f.node}
     stack = None
-    for c in walk_own(f.node):
+    for c in everything:
         if isinstance(c, ast.Call) and isinstance(c.func, ast.Attribute) and c.func.attr == "append" and c.args and isinstance(c.args[0], ast.Tuple) and len(c.args[0].elts) == 2:
             stack = norm(c.func.value)
     if stack is None:
         raise AnalysisError("R15.5", f.where(), "cannot find the edge stack")
     loc = None
-    for s in walk_own(f.node):
+    for s in everything:
         if isinstance(s, ast.Assign) and isinstance(s.targets[0], ast.Subscript) and isinstance(s.targets[0].slice, ast.Tuple) and f"len({stack}) - 1" in norm(s.value):
             loc = norm(s.targets[0].value)
     if loc is None:
         raise AnalysisError("R15.5", f.where(), "cannot find the table of edge-stack positions")
+
+    def cut_key_ok(assign, owner):
+        """cut = LOC[(parent, child)], directly or through a helper parameter that every call site binds to (parent, child)."""
+        v = assign.value
+        if not (isinstance(v, ast.Subscript) and norm(v.value) == loc):
+            return False
+        if norm(v.slice) == "(parent, child)":
+            return True
+        if isinstance(v.slice, ast.Name) and owner is not None:
+            params = [a.arg for a in owner.args.args]
+            if v.slice.id in params:
+                i = params.index(v.slice.id)
+                calls = [c for c in everything if isinstance(c, ast.Call) and isinstance(c.func, ast.Name) and c.func.id == owner.name]
+                return bool(calls) and all(len(c.args) > i and norm(c.args[i]) == "(parent, child)" and norm(c.args[params.index(stack)]) == stack for c in calls if stack in params) and all(len(c.args) > i and norm(c.args[i]) == "(parent, child)" for c in calls)
+        return False
+
+    def owner_of(node):
+        for fn in nested.values():
+            if any(x is node for x in ast.walk(fn)):
+                return fn
+        return None
+
     bad = []
     n_cut = 0
     n_push = 0
-    for s in walk_own(f.node):
+    for s in everything:
         if isinstance(s, ast.Call) and isinstance(s.func, ast.Attribute) and norm(s.func.value) == stack:
             if s.func.attr == "append":
                 n_push += 1
@@ -315,9 +345,12 @@ def r15_5(ctx, g):
                 if isinstance(t, ast.Subscript) and norm(t.value) == stack:
                     if isinstance(t.slice, ast.Slice) and t.slice.upper is None and isinstance(t.slice.lower, ast.Name):
                         cp = t.slice.lower.id
-                        d = [a for a in walk_own(f.node) if isinstance(a, ast.Assign) and norm(a.targets[0]) == cp]
-                        if d and all(isinstance(a.value, ast.Subscript) and norm(a.value.value) == loc and norm(a.value.slice) == "(parent, child)" for a in d):
-                            n_cut += 1
+                        own = owner_of(s)
+                        scope = ast.walk(own) if own is not None else walk_own(f.node)
+                        d = [a for a in scope if isinstance(a, ast.Assign) and norm(a.targets[0]) == cp]
+                        if d and all(cut_key_ok(a, own) for a in d):
+                            calls = 1 if own is None else sum(1 for c in everything if isinstance(c, ast.Call) and isinstance(c.func, ast.Name) and c.func.id == own.name)
+                            n_cut += calls
                         else:
                             bad.append(norm(s) + " with cut " + str([norm(a.value) for a in d]))
                     else:
@@ -325,7 +358,6 @@ def r15_5(ctx, g):
         if isinstance(s, ast.Assign) and any(norm(t) == stack for t in s.targets):
             if not (isinstance(s.value, ast.List) and not s.value.elts):
                 bad.append(norm(s))
-    # every push records its position
     pushes = [s for s in walk_stmts(f.node.body) if isinstance(s, ast.Expr) and isinstance(s.value, ast.Call) and isinstance(s.value.func, ast.Attribute) and norm(s.value.func.value) == stack and s.value.func.attr == "append"]
     rec_ok = True
     for ps in pushes:
@@ -340,9 +372,8 @@ def r15_5(ctx, g):
         if not (isinstance(nxt, ast.Assign) and isinstance(nxt.targets[0], ast.Subscript) and norm(nxt.targets[0].value) == loc and norm(nxt.targets[0].slice) == norm(ps.value.args[0]) and norm(nxt.value) == f"len({stack}) - 1"):
             rec_ok = False
     ctx.check(not bad and n_cut >= 2 and rec_ok, "R15.5", f.where(), "biccs' edge stack is only pushed to (each push recording its position) and truncated at the recorded position of the (parent, child) tree edge: a component is everything pushed since that edge", key_of(f, f"edge-stack:{bad}:{n_cut}:{rec_ok}"), pushes=n_push, cuts=n_cut, other_mutations=bad)
-    # the component of a cut is built from exactly the truncated slice
-    comps = [a for a in walk_own(f.node) if isinstance(a, ast.Assign) and isinstance(a.value, ast.Call) and a.value.args and isinstance(a.value.args[0], ast.Subscript) and norm(a.value.args[0].value) == stack]
-    ok = len(comps) >= 2 and all(isinstance(a.value.args[0].slice, ast.Slice) and a.value.args[0].slice.upper is None for a in comps)
+    comps = [a for a in everything if isinstance(a, ast.Assign) and isinstance(a.value, ast.Call) and a.value.args and isinstance(a.value.args[0], ast.Subscript) and norm(a.value.args[0].value) == stack]
+    ok = len(comps) >= 1 and all(isinstance(a.value.args[0].slice, ast.Slice) and a.value.args[0].slice.upper is None for a in comps)
     ctx.check(ok, "R15.5", f.where(), "each reported component is the node set of the stack slice that is then truncated", key_of(f, f"component-slices:{len(comps)}"))
 
 
